@@ -154,6 +154,8 @@ type reqSpec struct {
 	ValidatorDecides bool `json:"-"`
 	// TokenLimit: the executor is configured with this parser token limit (0 = none)
 	TokenLimit int `json:"parser_token_limit,omitempty"`
+	// Ext: the request's extensions member (no extension of the executor reads it here)
+	Ext map[string]any `json:"extensions,omitempty"`
 }
 
 func requests() []reqSpec {
@@ -191,6 +193,11 @@ func requests() []reqSpec {
 		{Name: "ambiguous-operation", Query: `query A{a} query B{name}`, Accept: false},
 		{Name: "variable-wrong-json-type", Query: `query($x:Int){b(x:$x)}`, Vars: map[string]any{"x": "abc"}, Accept: false},
 		{Name: "missing-nonnull-variable", Query: `query($x:Int!){b(x:$x)}`, Accept: false},
+		// a client-supplied persisted-query hash that NOTHING verifies (no APQ extension): it
+		// must not let an invalid document ride on a valid one that carried the same hash
+		{Name: "a-with-hash", Query: `{a}`, Accept: true, Roots: []string{"Query.a"}, ValidatorDecides: true, Ext: map[string]any{"persistedQuery": map[string]any{"version": 1, "sha256Hash": "h1"}}},
+		{Name: "unknown-field-with-same-hash", Query: `{nosuch}`, Accept: false, ValidatorDecides: true, Ext: map[string]any{"persistedQuery": map[string]any{"version": 1, "sha256Hash": "h1"}}},
+		{Name: "syntax-error-with-same-hash", Query: `{a`, Accept: false, ValidatorDecides: true, Ext: map[string]any{"persistedQuery": map[string]any{"version": 1, "sha256Hash": "h1"}}},
 		// the parser's token limit is a parse failure like any other (7 tokens > 5)
 		{Name: "over-token-limit", Query: `{a name a name a}`, Accept: false, TokenLimit: 5},
 		{Name: "at-token-limit", Query: `{a name a}`, Accept: true, Roots: []string{"Query.a", "Query.name"}, TokenLimit: 5},
@@ -208,7 +215,7 @@ type outcome struct {
 
 func runRequest(ex *executor.Executor, log *handschema.Log, r reqSpec) outcome {
 	log.Reset()
-	params := &graphql.RawParams{Query: r.Query, OperationName: r.OpName, Variables: r.Vars}
+	params := &graphql.RawParams{Query: r.Query, OperationName: r.OpName, Variables: r.Vars, Extensions: r.Ext}
 	ctx := graphql.StartOperationTrace(context.Background())
 	var resp *graphql.Response
 	oc, errs := ex.CreateOperationContext(ctx, params)
@@ -444,10 +451,10 @@ func sequentialShard(tier string, shard, n int, deadline time.Time) seqResult {
 		byName[r.Name] = r
 	}
 	crossCheckValidator(rs)
-	maxExt, histNames := 3, []string{"a", "unknown-field", "two-ops-second", "a-comment"}
+	maxExt, histNames := 3, []string{"a", "unknown-field", "two-ops-second", "a-comment", "a-with-hash"}
 	caches := []string{"none", "lru1", "map"}
 	if tier == "thorough" {
-		maxExt, histNames = 3, []string{"a", "a-name", "unknown-field", "mutation", "two-ops-second", "a-comment"}
+		maxExt, histNames = 3, []string{"a", "a-name", "unknown-field", "mutation", "two-ops-second", "a-comment", "a-with-hash"}
 		caches = []string{"none", "map", "lru1", "lru8"}
 	}
 	var hists [][]string
